@@ -220,9 +220,10 @@ func c09PoolText(pool []c09Frag) string {
 // c09MakeDesign builds a designed assembly: k junctions, 1..maxAlt
 // alternatives per slot, every fragment supplied in a random orientation, the
 // pool shuffled, plus decoys chosen by kind.
-//   decoy kinds: 0 both ends match nothing; 1 leading end matches a junction,
-//   trailing end dead; 2 trailing end matches a junction, leading end dead
-//   (each then supplied in a random orientation).
+//
+//	decoy kinds: 0 both ends match nothing; 1 leading end matches a junction,
+//	trailing end dead; 2 trailing end matches a junction, leading end dead
+//	(each then supplied in a random orientation).
 func c09MakeDesign(rng *rand.Rand, k, maxAlt, maxRings, nDecoy int, avoid []string) c09Design {
 	ov := c09Overhangs(rng, k+2*nDecoy+2)
 	junction := ov[:k]
@@ -616,9 +617,11 @@ func TestVerifC09(t *testing.T) {
 	vTerm.Sampled()
 
 	// ---- CircularLigate on fragments ----
+	var vLig *verifRun
 	{
-		v := newVerifRun("C09", c09ClauseLigate, fmt.Sprintf("sampled, %d designed assemblies given directly as fragments: 1..6 junctions with distinct non-palindromic 4-base overhangs (none the reverse complement of another), 1..3 alternative fragments per slot (interiors of 0..31 bases, sometimes the same molecule twice), 0..3 decoys (both ends dead / only the leading end live / only the trailing end live), every fragment supplied in a random orientation, pool shuffled; pools in which some supplied fragment sees a cycle that avoids its own leading overhang are left to the termination clause (this removes every pool with a decoy whose live end trails as supplied); each pool run %d times at each of GOMAXPROCS 1, 2, 16; the set of canonical forms (own brute-force least rotation over both strands) of the returned constructs must equal that of the independent ring enumerator, without repeats, every construct marked circular; non-trivial = at least 2 fragments in some ring or more than one ring", nLigate, reps))
+		v := newVerifRun("C09", c09ClauseLigate, fmt.Sprintf("sampled, %d designed assemblies given directly as fragments: 1..6 junctions with distinct non-palindromic 4-base overhangs (none the reverse complement of another), 1..3 alternative fragments per slot (interiors of 0..31 bases, sometimes the same molecule twice), 0..3 decoys (both ends dead / only the leading end live / only the trailing end live), every fragment supplied in a random orientation, pool shuffled; pools in which some supplied fragment sees a cycle that avoids its own leading overhang are left to the termination clause (this removes every pool with a decoy whose live end trails as supplied); each pool run %d times at each of GOMAXPROCS 1, 2, 16; the set of canonical forms (own brute-force least rotation over both strands) of the returned constructs must equal that of the independent ring enumerator, without repeats, every construct marked circular; non-trivial = at least 2 fragments in some ring or more than one ring; in addition the pools (a)-(c) and the controls of the termination clause, whenever their child process returned, are compared in the same way (classes then end in -in-cyclic-pool)", nLigate, reps))
 		v.Sampled()
+		vLig = v
 		for i := 0; i < nLigate && !hung; i++ {
 			k := 1 + rng.Intn(6)
 			maxRings := 729
@@ -654,7 +657,6 @@ func TestVerifC09(t *testing.T) {
 				}
 			}
 		}
-		v.Done()
 	}
 
 	// ---- GoldenGate on carrier parts ----
@@ -906,8 +908,7 @@ func TestVerifC09(t *testing.T) {
 			}(i, procs)
 		}
 		wg.Wait()
-		vEx := newVerifRun("C09", c09ClauseLigate, "pools of the termination clause, kinds (a)-(c) and controls, whenever the child process returned: compared with the ring enumerator as in the main run of this clause")
-		vEx.Sampled()
+		vEx := vLig
 		nCyclic, nCyclicBad := 0, 0
 		for i, tc := range cases {
 			if tc.cyclic {
@@ -936,9 +937,7 @@ func TestVerifC09(t *testing.T) {
 			}
 		}
 		vTerm.Done()
-		if vEx.Evaluations > 0 {
-			vEx.Done()
-		}
+		vLig.Done()
 	}
 	if hung {
 		t.Log("an in-process call did not return; see the termination clause")
